@@ -74,7 +74,7 @@ Definition outside_bbox (q : pt2) (poly : list pt2) : bool :=
 Definition far_from_outline (q : pt2) (poly : list pt2) (m2 : Q) : bool :=
   match poly with
   | [] => true
-  | v :: _ => if qleb m2 (1 # 1000000) && outside_bbox q poly then true else outline_far q (last poly v) poly m2
+  | v :: _ => if qleb m2 (4 # 1000000) && outside_bbox q poly then true else outline_far q (last poly v) poly m2
   end.
 
 (* Some answer when exact geometry decides the case with margins, None when the case lies within the
@@ -86,7 +86,12 @@ Definition decided_hit (p : pose) (poly : list pt2) (r : rayq) : option bool :=
       if qltb (Qabs (h_den h)) (2 # 100000) then None
       else if qltb (Qabs (h_t h)) (1 # 10000) then None
       else if qltb (h_t h) 0 then Some false
-      else if far_from_outline (h_pt h) poly (1 # 1000000) then Some (point_in_poly (h_pt h) poly) else None
+      else
+        (* the crossing point is computed in f32 with an error that grows as the ray grazes the plane:
+           the excluded band around the outline is 1 mm plus 2e-6 / |cos of the incidence| (unit directions) *)
+        let m2 := if qleb (1 # 50) (Qabs (h_den h)) then (121 # 100000000)     (* 1.1 mm, squared *)
+                  else let m := Qred ((1 # 1000) + (2 # 1000000) / Qabs (h_den h)) in Qred (m * m) in
+        if far_from_outline (h_pt h) poly m2 then Some (point_in_poly (h_pt h) poly) else None
   end.
 
 (* ---- bounding box of points ---- *)
